@@ -2771,3 +2771,25 @@ mod tests {
         );
     }
 }
+
+/// Verification hook H2 (only with `--cfg melda_verif`): read-only view of the
+/// load status of every known delta block.
+#[cfg(melda_verif)]
+impl Melda {
+    pub fn verif_delta_status(&self) -> BTreeMap<String, &'static str> {
+        self.deltas
+            .read()
+            .unwrap()
+            .iter()
+            .map(|(k, d)| {
+                let s = match d.read().unwrap().status {
+                    Status::Pending => "pending",
+                    Status::Ready => "ready",
+                    Status::Applied => "applied",
+                    Status::Blocked => "blocked",
+                };
+                (k.to_string(), s)
+            })
+            .collect()
+    }
+}
